@@ -2,9 +2,10 @@
 (* Generator for C17: the full NewSigner / NewVerifier matrix and the digest /  *)
 (* message entry-point equivalence.                                             *)
 EXTENDS CoseCrypto, Json
-AlgIds == BuiltIn \cup RSAlgs \cup {0, 99, 0 - 65537, 0 - 16}
-SignerKinds == {"rsa1024", "rsa2047", "rsa2048", "rsa3072", "rsa2048-opaque", "rsa1024-opaque", "rsa2047-opaque", "p224", "p256", "p384", "p521", "p256-opaque", "ed", "ed-opaque", "foreign-strange", "foreign-nil"}
-VerifierKinds == {"rsa1024", "rsa2047", "rsa2048", "rsa3072", "p224", "p256", "p384", "p521", "offcurve", "offcurve2", "offcurve2-p384", "offcurve2-p521", "infinity", "unreduced", "negative", "ecdsa-value", "ed", "ed-private", "strange", "nil"}
+\* ... and identifiers that equal a built-in one modulo 2^8 / 2^16
+AlgIds == BuiltIn \cup RSAlgs \cup {0, 99, 0 - 65537, 0 - 16} \cup {0 - 263, 0 - 264, 0 - 291, 0 - 293, 249, 248, 219, 0 - 65543, 0 - 65544, 65529}
+SignerKinds == {"rsa1024", "rsa2047", "rsa2048", "rsa3072", "rsa2048e3", "rsa2048-opaque", "rsa1024-opaque", "rsa2047-opaque", "p224", "p256", "p384", "p521", "p256-opaque", "ed", "ed-opaque", "foreign-strange", "foreign-nil"}
+VerifierKinds == {"rsa1024", "rsa2047", "rsa2048", "rsa3072", "rsa2048e3", "p224", "p256", "p384", "p521", "offcurve", "offcurve2", "offcurve2-p384", "offcurve2-p521", "infinity", "unreduced", "negative", "ecdsa-value", "ed", "ed-private", "strange", "nil"}
 Hashes == {"sha256", "sha384", "sha512"}
 CONSTANTS MsgLens
 
